@@ -19,7 +19,8 @@ open MxModel.Exec
 
 def withFlags (env : Env) (c : CellId → Bool) : Env := { env with cached := c }
 
-theorem denoteBody_congr (env env' : Env) (f : Node → Res × Bool) (hr : env'.refs = env.refs) :
+theorem denoteBody_congr (env env' : Env) (f : Node → Res × Bool) (hr : env'.refs = env.refs)
+    (ha : env'.alive = env.alive) :
     ∀ p : Prog, denoteBody env' f p = denoteBody env f p := by
   intro p
   induction p with
@@ -27,7 +28,7 @@ theorem denoteBody_congr (env env' : Env) (f : Node → Res × Bool) (hr : env'.
   | raise e => rfl
   | reraise e => rfl
   | read a r k ih => simp only [denoteBody, hr]; exact ih _
-  | call n k ih => simp only [denoteBody, ih]
+  | call n k ih => simp only [denoteBody, calleeAt, ha, ih]
 
 /-- **Switching any subset of cells between cached and uncached changes no value**
 (specification level; no inputs, `None` allowed). -/
@@ -46,7 +47,7 @@ theorem flags_irrelevant_to_values (env : Env) (c : CellId → Bool)
     have h2 : (if env.cached n.1 = true then (none : Option Val) else none) = none := by split <;> rfl
     rw [h1, h2]
     simp only []
-    rw [denoteBody_congr env (withFlags env c) _ rfl]
+    rw [denoteBody_congr env (withFlags env c) _ rfl rfl]
     have hck : ∀ r, checkNone (withFlags env c) n.1 r = checkNone env n.1 r := by
       intro r
       unfold checkNone withFlags
@@ -78,10 +79,12 @@ theorem uncached_holds_nothing (env : Env) (lt : Node → Node → Prop) (ho : S
   C08.uncached_holds_nothing env lt ho hr ops m hc
 
 /-- **…and are re-executed on every call**: a call of an uncached cells always reaches the
-formula evaluator, whatever the cache holds; its arguments are never looked up. -/
+formula evaluator, whatever the cache holds; its arguments are never looked up.  (`ha`: the
+cells exists – the name of a deleted cells is not bound, the call fails in the caller.) -/
 theorem uncached_always_executes (env : Env) (ef : Node → St → Res × St) (n : Node) (s : St)
+    (ha : env.alive n.1 = true)
     (hc : env.cached n.1 = false) : evalNode env ef n s = ef n s := by
-  unfold evalNode; simp [hc]
+  unfold evalNode; simp [ha, hc]
 
 /-! ### The hypothesis `None is allowed everywhere` is needed: a known finding
 
